@@ -940,8 +940,17 @@ class FunctionPlugin(PrimitivePlugin):
                 try:
                     capture_items.append((pname, _capture_const(value_for_capture)))
                 except Exception:
+                    # Not array-like (e.g. a ragged tuple): the value itself
+                    # still has to separate call sites, not only its type.
                     capture_items.append(
-                        (pname, ("static", type(value_for_capture).__name__))
+                        (
+                            pname,
+                            (
+                                "static",
+                                type(value_for_capture).__name__,
+                                repr(value_for_capture),
+                            ),
+                        )
                     )
                 static_params[pname] = original_val
 
